@@ -1,7 +1,8 @@
 \* thorough emission: every edge two edits deep on the block tree
-CONSTANTS NLeaf = 3  NBlk = 1  NAsm = 1  MaxLevel = 3  LMax = 20000  VMax = 100
+CONSTANTS NLeaf = 3  NBlk = 1  NAsm = 1  MaxLevel = 3  LSrc = 600  LMax = 20000  VMax = 100
 CONSTANTS Parent <- TBlkParent  Area <- TBlkArea  Height <- TBlkHeight  Sym <- TBlkSym  W <- Wt  N0 <- TBlkN0  H0 <- TBlkH0
 CONSTANTS Targets <- TBlkTargets  Vals <- ValsQ  Facs <- FacsQ  Masses <- MassesQ  Maps <- MapsQ  FracMaps <- FracMapsQ  AddMaps <- AddMapsQ  SetMaps <- SetMapsQ
+CONSTANTS AdjSets <- AdjSetsQ  EnrFracs <- EnrFracsQ  AdjMFs <- AdjMFsQ
 CONSTANTS HDom <- HDom123  HTargets <- TBlkHAll  HVals <- HVals2
 CONSTANTS LeafVolCut <- LeafVolCutEnv  ScaleRaises <- ScaleRaisesEnv
 INIT InitB
